@@ -37,6 +37,15 @@ func Ref() []byte {
 // reading with buffers of blens (cyclic) until EOF or an error.  Returns the
 // case line: kind cfg W wlens.. 0 0 1 R (blen res n ok)*.
 func StreamCase(kind, cfg int64, base int, wlens, blens []int, w io.Writer, closeWrite func() error, r io.Reader, timeout time.Duration) []int64 {
+	return StreamCaseRetry(kind, cfg, base, wlens, blens, w, closeWrite, r, timeout, nil, nil)
+}
+
+// StreamCaseRetry is StreamCase for a reader that treats a timeout as
+// retryable: the bytes returned together with the timeout count (io.Reader
+// contract), onTimeout is called (to extend the deadline) and reading goes on.
+// beforeRead, if set, runs once after the writer was started and before the
+// first Read.
+func StreamCaseRetry(kind, cfg int64, base int, wlens, blens []int, w io.Writer, closeWrite func() error, r io.Reader, timeout time.Duration, beforeRead func(), onTimeout func()) []int64 {
 	ref := Ref()
 	total := 0
 	for _, l := range wlens {
@@ -74,6 +83,10 @@ func StreamCase(kind, cfg int64, base int, wlens, blens []int, w io.Writer, clos
 	var reads []int64
 	delivered := 0
 	deadline := time.Now().Add(timeout)
+	if beforeRead != nil {
+		beforeRead()
+	}
+	retries := 0
 	for i := 0; i < 2000000; i++ {
 		bl := blens[i%len(blens)]
 		if bl < 512 {
@@ -92,6 +105,15 @@ func StreamCase(kind, cfg int64, base int, wlens, blens []int, w io.Writer, clos
 				ok = 0
 			}
 			delivered += n
+		}
+		if err != nil && onTimeout != nil && retries < 16 && isTimeout(err) {
+			// retryable: keep the n bytes, extend the deadline, go on
+			retries++
+			if n > 0 {
+				reads = append(reads, int64(bl), 0, int64(n), ok)
+			}
+			onTimeout()
+			continue
 		}
 		if err != nil {
 			res = 2
@@ -118,4 +140,13 @@ func StreamCase(kind, cfg int64, base int, wlens, blens []int, w io.Writer, clos
 	}
 	line = append(line, int64(len(reads)/4))
 	return append(line, reads...)
+}
+
+func isTimeout(err error) bool {
+	type timeout interface{ Timeout() bool }
+	var te timeout
+	if errors.As(err, &te) {
+		return te.Timeout()
+	}
+	return false
 }
